@@ -4,15 +4,16 @@ package varmq
 // public surface at once — submissions, handle reads, cancellation, purge, control and
 // introspection calls — so that every pair of API calls gets to overlap under the controlled
 // scheduler (C19). Nothing is asserted about results: overlapping control calls (Restart with
-// Stop, ...) leave the worker in whatever state the last one reached; only data races (and
-// the lock discipline) are judged on these episodes.
+// Stop, ...) leave the worker in whatever state the last one reached; only data races, the
+// lock discipline and "a barrier whose condition holds at rest is not asleep" (C06) are judged
+// on these episodes.
 
 import (
 	"github.com/goptics/varmq/internal/vt"
 )
 
 func init() {
-	registerFamily("apimix", []string{}, func(e *env) {
+	registerFamily("apimix", []string{"C06"}, func(e *env) {
 		r := vt.Rand()
 		e.common(r)
 		e.withCtx = r.Intn(3) == 0
@@ -31,7 +32,7 @@ func init() {
 				var mine []*sub
 				for i := 0; i < nops; i++ {
 					q := qs[r.Intn(len(qs))]
-					switch r.Intn(22) {
+					switch r.Intn(23) {
 					case 0, 1, 2:
 						mine = append(mine, e.add(q, r.Intn(3), randOutcome(r), false, ""))
 					case 3:
@@ -76,6 +77,8 @@ func init() {
 						}
 					case 21:
 						_ = e.qs[q].NumPending()
+					case 22:
+						e.closeQueue(q)
 					}
 					for k := r.Intn(2); k > 0; k-- {
 						vt.Yield()
@@ -83,6 +86,47 @@ func init() {
 				}
 			})
 		}
+		jn.wait()
+		vt.WaitIdle()
+	})
+
+	// ctlrace: control calls overlapping each other and a barrier caller while jobs are in flight:
+	// Stop with Resume with WaitUntilFinished / Restart. Judged like apimix.
+	registerFamily("ctlrace", []string{"C06"}, func(e *env) {
+		r := vt.Rand()
+		e.kind = e.p("kind", r.Intn(3))
+		e.conc = e.p("conc", 1+r.Intn(2))
+		e.noFinalDrain = true
+		e.mkWorker()
+		q := e.bind(pick(r, qFifo, qPrio))
+		var jn joiner
+		n := 1 + r.Intn(3)
+		jn.goClient("producer", func() {
+			for i := 0; i < n; i++ {
+				e.add(q, r.Intn(3), oOK, false, "")
+				vt.Yield()
+			}
+		})
+		jn.goClient("stopper", func() {
+			for k := r.Intn(3); k > 0; k-- {
+				vt.Yield()
+			}
+			e.lifecycle([]string{"Stop", "Stop", "PauseAndWait", "WaitAndStop"}[r.Intn(4)], 0)
+		})
+		jn.goClient("resumer", func() {
+			for i := 1 + r.Intn(2); i > 0; i-- {
+				for k := r.Intn(3); k > 0; k-- {
+					vt.Yield()
+				}
+				e.lifecycle("Resume", 0)
+			}
+		})
+		jn.goClient("waiter", func() {
+			for k := r.Intn(3); k > 0; k-- {
+				vt.Yield()
+			}
+			e.lifecycle([]string{"WaitUntilFinished", "WaitUntilFinished", "Restart", "PauseAndWait"}[r.Intn(4)], 0)
+		})
 		jn.wait()
 		vt.WaitIdle()
 	})
